@@ -18,7 +18,8 @@ namespace {
 
 struct Cover {
     uint64_t files = 0, bytesWritten = 0, bytesRead = 0, writeCalls = 0, appends = 0, truncations = 0, seeks = 0, sizeCalls = 0, readCalls = 0;
-    uint64_t reopens = 0;
+    uint64_t reopens = 0, readerReuses = 0;
+    uint64_t missingKinds[4] = {0, 0, 0, 0};
     uint64_t errorProbes = 0, emptyFiles = 0, withNul = 0, withFF = 0, withCRLF = 0, large = 0, nontrivialCases = 0;
     std::map<std::string, uint64_t> modes, classes;
     std::vector<uint64_t> fps;
@@ -181,12 +182,19 @@ void readBack(const std::string &path, const std::string &model, rt::Rng &rng, F
 
 void errorProbes(const std::string &dir, rt::Rng &rng) {
     const char *site = "open-errors";
+    // a file that does not exist - plainly, below a regular file (ENOTDIR), behind an over-long component
+    // (ENAMETOOLONG), in a missing directory
     std::string missing = dir + "/does-not-exist-" + std::to_string(rng.below(1000));
+    unsigned mk = (unsigned) rng.below(4);
+    if (mk == 1) { std::string reg = dir + "/regular-for-enotdir.bin"; { std::ofstream o(reg); o << "x"; } missing = reg + (rng.chance(500) ? "/child.txt" : "/"); }
+    else if (mk == 2) missing = dir + "/" + std::string(300, 'n');
+    else if (mk == 3) missing = dir + "/no-such-dir/file.bin";
+    ++C.missingKinds[mk];
     for (File::Mode m : {File::Mode::Read, File::Mode::ReadText}) {
         ++C.errorProbes;
         try {
             File f(missing, m);
-            return fail("missing-file-opened", site, "opening a missing file for reading did not throw");
+            return fail("missing-file-opened", site, "opening the missing file '" + missing.substr(dir.size(), 60) + "' for reading did not throw (isOpen() = " + (f.isOpen() ? "true" : "false") + ")");
         } catch (const tulz::Exception &e) {
             if (e.type != Path::NotFound) return fail("wrong-error", site, "missing file: exception type " + std::to_string(e.type) + ", expected NotFound");
         } catch (...) { return fail("wrong-error", site, "missing file: foreign exception type"); }
@@ -200,7 +208,8 @@ void errorProbes(const std::string &dir, rt::Rng &rng) {
     } catch (const tulz::Exception &e) {
         if (e.type != Path::NotFile) return fail("wrong-error", site, "directory: exception type " + std::to_string(e.type) + ", expected NotFile");
     } catch (...) { return fail("wrong-error", site, "directory: foreign exception type"); }
-    if (fs::exists(missing)) fail("missing-file-created", site, "a failed open for reading created the file");
+    std::error_code ec2;
+    if (fs::exists(missing, ec2)) fail("missing-file-created", site, "a failed open for reading created the file");
 }
 
 void runCase(uint64_t c, rt::Rng rng, const std::string &dir, long maxLen) {
@@ -288,6 +297,20 @@ void runCase(uint64_t c, rt::Rng rng, const std::string &dir, long maxLen) {
         verifyOnDisk(p2, append ? a + b : b, append ? "reopen-append" : "reopen-write");
         ++C.reopens;
     }
+    // one File object reads two different files one after the other: nothing of the first may stick
+    if (!gCaseFailed && rng.chance(200)) {
+        std::string pa = dir + "/reuse-a.bin", pb = dir + "/reuse-b.bin";
+        std::string ca = content(rng, 1 + rng.below(400), cls), cb = content(rng, rng.chance(500) ? ca.size() + 1 + rng.below(400) : rng.below(ca.size()), cls);
+        { File w(pa, File::Mode::Write); w.write(ca); }
+        { File w(pb, File::Mode::Write); w.write(cb); }
+        File::Mode rm = rng.chance(500) ? File::Mode::Read : File::Mode::ReadText;
+        File f(pa, rm);
+        if (f.size() != ca.size() || f.readStr() != ca) fail("wrong-bytes", "reader-reuse", "first file read wrongly");
+        f.open(Path(pb), rm);
+        if (!gCaseFailed && f.size() != cb.size()) fail("wrong-size", "reader-reuse", "size() = " + std::to_string(f.size()) + " for the second file read through the same File object, which has " + std::to_string(cb.size()) + " bytes (the first had " + std::to_string(ca.size()) + ")");
+        if (!gCaseFailed) { std::string got = f.readStr(); if (got != cb) fail("wrong-bytes", "reader-reuse", "second file read through the same File object: " + firstDiff(got.data(), got.size(), cb)); }
+        ++C.readerReuses;
+    }
     ++C.files;
     if (len > 0) {
         ++C.nontrivialCases;
@@ -316,7 +339,7 @@ int main(int argc, char **argv) {
     rt::dumpFingerprints(C.fps);
     rt::finish(rt::Json().kv("engine", "h_file").kv("files", C.files).kv("bytesWritten", C.bytesWritten).kv("bytesRead", C.bytesRead)
                    .kv("writeCalls", C.writeCalls).kv("appendSessions", C.appends).kv("truncations", C.truncations).kv("seeks", C.seeks)
-                   .kv("sizeCalls", C.sizeCalls).kv("readCalls", C.readCalls).kv("errorProbes", C.errorProbes).kv("reopenedOnSamePath", C.reopens).kv("emptyFiles", C.emptyFiles)
+                   .kv("sizeCalls", C.sizeCalls).kv("readCalls", C.readCalls).kv("errorProbes", C.errorProbes).kv("reopenedOnSamePath", C.reopens).kv("readerObjectsReused", C.readerReuses).kv("missingBelowRegularFile", C.missingKinds[1]).kv("missingOverlongName", C.missingKinds[2]).kv("missingInMissingDirectory", C.missingKinds[3]).kv("emptyFiles", C.emptyFiles)
                    .kv("filesWithNul", C.withNul).kv("filesWith0xFF", C.withFF).kv("filesWithCRLF", C.withCRLF).kv("filesOver1MB", C.large)
                    .kv("nontrivialCases", C.nontrivialCases).raw("contentClasses", rt::jsonCounts(C.classes)).raw("modes", rt::jsonCounts(C.modes))
                    .raw("samples", rt::jsonArray(C.samples, false)));
